@@ -111,6 +111,9 @@ def bgzfFrame (cdata payload : List Nat) : List Nat :=
   [0x1f, 0x8b, 8, 4, 0, 0, 0, 0, 0, 0xff, 6, 0, 66, 67, 2, 0] ++ toLe16 (cdata.length + 25) ++ cdata ++
     toLe32 (crc32 payload) ++ toLe32 payload.length
 
+/-- BGZF frames around arbitrary DEFLATE data (e.g. what a real compressor produced): (cdata, payload) pairs. -/
+def bgzfFrames (blocks : List (List Nat × List Nat)) : List Nat := blocks.flatMap (fun b => bgzfFrame b.1 b.2)
+
 /-- A BGZF encoder with stored DEFLATE blocks: one block per chunk of the given partition (chunks ≤ 65 280 bytes, the
     BGZF payload limit), then an empty end-of-file block. -/
 def bgzfEncodeStored (chunks : List (List Nat)) : List Nat :=
